@@ -24,6 +24,11 @@ theorem extraction_clean : extractionErrors = [] := by decide
 
 theorem tie_limit_ops : Programs.limitClient.tags = borrowShape ++ tryBorrowShape ++ returnShape := by decide
 
+/-- which value is reported on which branch: received → `nil`, empty → `ErrLimitReturn`; sent → `true`, full → `false`. -/
+theorem tie_limit_results :
+    returnResults = ["return nil", "return ErrLimitReturn"] ∧ tryBorrowResults = ["return true", "return false"] := by
+  decide
+
 theorem tie_limit_capacity : newLimitDetails = ["make chan lang.PlaceholderType cap=n"] := by decide
 
 /-! ### syncx.TimeoutLimit (+ Cond) -/
@@ -35,6 +40,12 @@ theorem tie_timeoutLimit_delegates :
     tlTryBorrowShape = ["call l.limit.TryBorrow", "return"]
     ∧ newTimeoutLimitDetails = ["field limit: NewLimit(n)", "call NewLimit(n)"] := by decide
 
+/-- `TimeoutLimit.Borrow`: `nil` only after a successful TryBorrow (rows 1 and 4), `ErrTimeout` otherwise;
+`TimeoutLimit.Return` passes the limit's error on. -/
+theorem tie_timeoutLimit_results :
+    tlBorrowResults = ["return nil", "return nil", "return ErrTimeout"]
+    ∧ tlReturnResults = ["return err", "return nil"] := by decide
+
 /-- `Cond`: waiting never touches the limit (it only receives from `cond.signal` or the timer) and
 `Signal` is a non-blocking send — the wake-up is an environment choice in the model. -/
 theorem tie_cond :
@@ -45,6 +56,8 @@ theorem tie_cond :
 /-! ### threading.TaskRunner -/
 
 theorem tie_runner : Programs.runner.tags = trWaitShape ++ scheduleShape ++ scheduleImmShape := by decide
+
+theorem tie_runner_results : scheduleImmResults = ["return ErrTaskRunnerBusy", "return nil"] := by decide
 
 theorem tie_runner_capacity : newTaskRunnerDetails = ["make chan lang.PlaceholderType cap=concurrency"] := by decide
 
